@@ -188,6 +188,60 @@ fn check_try_new(n: usize, rep: &mut Report) {
     }
 }
 
+// ------------------------------------------------------------------------------------------------
+// Other ways into `Data`: `Data::from(&'static [u8; N])`. On the pinned tree the conversion exists for N = 0..=4 only. The
+// probe below uses method-resolution order ("autoref specialisation") so that it compiles whether or not a conversion
+// exists for a given N: if one does, what it yields must obey the same 255-byte limit as `try_new`.
+
+struct Probe<T>(T);
+
+trait ViaFrom {
+    fn build(&self) -> Option<Result<usize, String>>;
+}
+
+impl<T: Copy> ViaFrom for Probe<T>
+where
+    Data<'static>: From<T>,
+{
+    fn build(&self) -> Option<Result<usize, String>> {
+        let value = self.0;
+        Some(catch(move || Data::from(value).get().len()).map_err(|p| p.msg))
+    }
+}
+
+trait NoFrom {
+    fn build(&self) -> Option<Result<usize, String>>;
+}
+
+impl<T> NoFrom for &Probe<T> {
+    fn build(&self) -> Option<Result<usize, String>> {
+        None
+    }
+}
+
+static BLOCK_4: [u8; 4] = [0x5A; 4];
+static BLOCK_5: [u8; 5] = [0x5A; 5];
+static BLOCK_255: [u8; 255] = [0x5A; 255];
+static BLOCK_256: [u8; 256] = [0x5A; 256];
+
+fn check_array_conversions(rep: &mut Report) {
+    let probes: [(usize, Option<Result<usize, String>>); 4] = [(4, (&Probe(&BLOCK_4)).build()), (5, (&Probe(&BLOCK_5)).build()), (255, (&Probe(&BLOCK_255)).build()), (256, (&Probe(&BLOCK_256)).build())];
+    for (n, r) in probes {
+        rep.case(Some(mix(0xA77A, n as u64)));
+        rep.count("array_conversions_probed");
+        match r {
+            None => rep.count("array_conversions_absent"),
+            Some(Err(_)) => rep.count("array_conversions_refused_by_panic"),
+            Some(Ok(held)) => {
+                rep.count("array_conversions_present");
+                if n > 255 || held != n {
+                    rep.violation(MON, "long_data_accepted_through_from", &format!("from-array-{}", n), format!("Data::from(&'static [u8; {}]) yields a Data holding {} bytes: a block longer than 255 bytes can be placed in a frame", n, held), J::obj(vec![("workload", J::s("Data::from(&[u8; N])")), ("n", J::us(n)), ("held", J::us(held))]));
+                }
+            }
+        }
+    }
+}
+
 fn fills(len: usize, rng: &mut util::Rng) -> Vec<Vec<u8>> {
     let mut v = vec![vec![0u8; len], vec![0xFFu8; len], (0..len).map(|i| i as u8).collect::<Vec<u8>>()];
     for _ in 0..4 {
@@ -234,6 +288,20 @@ pub fn run(ctx: &Ctx) -> Outcome {
                     check_frame(rng.edgy_u16(), rng.edgy_u8(), &f, rep);
                 }
             }
+            // the frames whose byte sum is as large as it gets (a checksum accumulator narrower than it should be, or a
+            // saturating one, first goes wrong here): long runs of FF under FF-ish headers
+            for len in 248..=255usize {
+                for addr in [0xFFFFu16, 0xFFFE, 0xFF00, 0x00FF, 0x0000] {
+                    for ty in [0xFFu8, 0xFE, 0x00] {
+                        for last in [0xFFu8, 0xFE, 0xFD, 0x00] {
+                            let mut d = vec![0xFFu8; len];
+                            d[len - 1] = last;
+                            check_frame(addr, ty, &d, rep);
+                            rep.count("largest_byte_sums");
+                        }
+                    }
+                }
+            }
             rep.add("sweep_lengths", 256);
         } else if shard == 258 {
             for len in [1usize, 2, 16, 255] {
@@ -264,6 +332,7 @@ pub fn run(ctx: &Ctx) -> Outcome {
             for n in (0..=300usize).chain([1000, 70_000]) {
                 check_try_new(n, rep);
             }
+            check_array_conversions(rep);
             // lengths around every multiple of 2^8 / 2^16 / 2^24 (and, thorough tier, 2^32): a length that is compared
             // after being narrowed passes exactly there
             let mut wraps: Vec<usize> = vec![];
@@ -312,6 +381,8 @@ pub fn run(ctx: &Ctx) -> Outcome {
         floor("all 256 types swept", report.get("sweep_types") == 256 && report.set_len("types") == 256, report.set_len("types")),
         floor("all data lengths 0..=255 swept", report.set_len("data_lengths") == 256, report.set_len("data_lengths")),
         floor("single-byte value sweep ran", report.get("sweep_byte_values") == 256, report.get("sweep_byte_values")),
+        floor("frames with the largest possible byte sums", report.get("largest_byte_sums") == 480, report.get("largest_byte_sums")),
+        floor("Data::from(&[u8; N]) probed for N = 4, 5, 255, 256 (present for 4 on the pinned API)", report.get("array_conversions_probed") == 4 && report.get("array_conversions_present") >= 1, report.get("array_conversions_present")),
         floor("try_new lengths incl. > 255", report.get("try_new_over_255_tried") >= 47, report.get("try_new_over_255_tried")),
         floor("try_new lengths around the multiples of 2^8, 2^16, 2^24 (thorough: 2^32)", report.get("try_new_wrap_lengths_tried") >= 40, report.get("try_new_wrap_lengths_tried")),
         floor("frame with address >= 0x8000", report.get("frames_addr_ge_8000") > 0, report.get("frames_addr_ge_8000")),
